@@ -1028,3 +1028,7 @@ package core
 //@ func IsVariable
 //@   ensures[C02+C08.isvariable_is_question_mark_prefix] result == prefix("?", s)
 //@   pure-effects
+
+// C13 (D25 repaired): the write path never hands maybeInjectId a fact that carries a different _id
+//@ func maybeInjectId
+//@   requires[C13.injected_id_does_not_conflict] !(writing && SystemParameters.IdInjectionTime == InjectIdAtWrite && has(fact, "_id") && ite(is(fact["_id"], string), fact["_id"].(string), "") != id)
